@@ -1875,23 +1875,27 @@ func (n *node) eventConsumerGone(targets []any) {
 		if ok == false || ev.Node != n.name {
 			continue
 		}
-		value, exist := n.events.Load(ev)
-		if exist == false {
-			continue
-		}
-		event := value.(*eventOwner)
-		c := atomic.AddInt32(&event.consumers, -1)
-		if event.notify == false || c > 0 {
-			continue
-		}
-		options := gen.MessageOptions{
-			Priority: gen.MessagePriorityHigh,
-		}
-		message := gen.MessageEventStop{
-			Name: ev.Name,
-		}
-		n.RouteSendPID(n.corePID, event.producer, options, message)
+		n.eventConsumersGone(ev, 1)
 	}
+}
+
+func (n *node) eventConsumersGone(ev gen.Event, count int32) {
+	value, exist := n.events.Load(ev)
+	if exist == false {
+		return
+	}
+	event := value.(*eventOwner)
+	c := atomic.AddInt32(&event.consumers, -count)
+	if event.notify == false || c > 0 {
+		return
+	}
+	options := gen.MessageOptions{
+		Priority: gen.MessagePriorityHigh,
+	}
+	message := gen.MessageEventStop{
+		Name: ev.Name,
+	}
+	n.RouteSendPID(n.corePID, event.producer, options, message)
 }
 
 func (n *node) registerAlias(alias gen.Alias, p *process) error {
